@@ -208,7 +208,9 @@ def tarOne : Nat → FileRec → List FileRec → Option (Bytes × List FileRec)
           | some bst =>
             let all := bst ++ [⟨UInt64.ofNat n, UInt64.ofNat (16 + bst.length * 24 + 24), Gen.CaFormatGoodbyeTailMarker⟩]
             some (hdr ++ body ++ encElem (.goodbye (UInt64.ofNat (16 + all.length * 24)) all), rest')
-      | .reg => some (hdr ++ encElem (.payload (16 + f.size)) ++ f.data, rest)
+      | .reg =>
+        if f.data.length < f.size.toNat then none      -- io.CopyN hits EOF: "payload is shorter than its size"
+        else some (hdr ++ encElem (.payload (16 + f.size)) ++ f.data.take f.size.toNat, rest)
       | .symlink => some (hdr ++ encElem (.symlink (UInt64.ofNat (16 + f.target.length + 1)) f.target), rest)
       | .device => some (hdr ++ encElem (.device 32 f.major f.minor), rest)
       | .other => some ([], rest)
